@@ -75,7 +75,8 @@ CHECKS["C11"] = {
     "level": "exploration",
     "subs": [
         _sub("TestC11_Versions", 2000, 60000, sq=10, st=10),
-        _sub("TestC11_UnderFaults", 300, 12000, sq=6, st=6),
+        _sub("TestC11_UnderFaults", 300, 12000, sq=5, st=5),
+        _sub("TestC11_KVCutoff", 2000, 80000, sq=1, st=2),
     ],
 }
 CHECKS["C12"] = {
